@@ -74,6 +74,17 @@ def w_zero(d):
 
 
 W000 = re.compile(rb"/W\s*\[\s*0+\s+0+\s+0+\s*\]")
+BIGNUM = re.compile(rb"(?<![0-9])[0-9]{10,19}(?![0-9])")
+
+
+def big_number_windows(b):
+    """what the classifier needs of a whole file: every huge number with the 80 bytes before it (the name it stands under)"""
+    out = []
+    for m in BIGNUM.finditer(b):
+        out.append(b[max(0, m.start() - 80):m.end()])
+        if len(out) >= 40:
+            break
+    return b"\n".join(out) + b"\n" if out else b""
 
 
 def count_huge(d):
@@ -119,9 +130,9 @@ def run(tier):
         jobs.append(("guard-on", g))
         jobs.append(("guard-off", g))
     if quick:
-        jobs += [("producer", i, 34) for i in range(3)] + [("seeds", i, 150) for i in range(2)]
+        jobs += [("producer", i, 30) for i in range(3)] + [("seeds", i, 150) for i in range(2)]
     else:
-        jobs += [("producer", i, 260) for i in range(11)] + [("seeds", i, 2200) for i in range(3)]
+        jobs += [("producer", i, 400) for i in range(11)] + [("seeds", i, 2200) for i in range(3)]
 
     def one(job):
         if job[0] == "guard-on":
@@ -311,7 +322,7 @@ def run(tier):
         judged.append({"id": i, "group": m["group"], "ep": c["ep"], "kind": o["kind"],
                        "loc": (o.get("loc") or "").rsplit(":", 1)[0], "mcl": o.get("mcl") or "",
                        "refused": digits(o.get("refused")), "peak": digits(o.get("peak")), "len": m["n"], "dict": c.get("dict") or [],
-                       "bytes": list(bytes.fromhex(c["hex"])) if need_bytes and m["n"] <= 20000 else [],
+                       "bytes": list(big_number_windows(bytes.fromhex(c["hex"]))) if need_bytes else [],
                        "nest": m["nest"], "wzero": bool(m["wzero"])})
     ctl = [
         {"id": -1, "group": "file", "ep": "load", "kind": "panic", "loc": "lopdf:injected.rs", "mcl": "add-overflow", "refused": [], "peak": [], "len": 100,
